@@ -51,7 +51,7 @@ func genAttCase(t *rapid.T) interface{} {
 	n := rapid.IntRange(1, 9).Draw(t, "nvals")
 	powerGen := rapid.OneOf(
 		rapid.Int64Range(1, 3),
-		rapid.SampledFrom([]int64{1, 1, 2, 3, 10, 33, 34, 50, 66, 67, 100, 1 << 20, 1 << 40}),
+		rapid.SampledFrom([]int64{1, 1, 2, 3, 10, 33, 34, 50, 66, 67, 100, 1 << 20, 1 << 40, 1 << 50, 1 << 58}),
 		rapid.Int64Range(1, 200),
 	)
 	c := &AttCase{}
@@ -72,7 +72,7 @@ func genAttCase(t *rapid.T) interface{} {
 			op.Val = rapid.IntRange(0, n-1).Draw(t, "val")
 			op.Chain = rapid.IntRange(0, len(attChains)-1).Draw(t, "chain")
 			op.Via = rapid.SampledFrom([]int{0, 0, 1}).Draw(t, "via")
-			op.Delta = rapid.SampledFrom([]int{0, 0, 0, 0, 0, 0, -1, 1, 2}).Draw(t, "delta")
+			op.Delta = rapid.SampledFrom([]int{0, 0, 0, 0, 0, 0, 0, 0, -1, -1, 1, 2, -2, -3, -10, 5}).Draw(t, "delta")
 			op.Variant = rapid.SampledFrom([]int{0, 0, 0, 0, 1, 2}).Draw(t, "variant")
 		case k < 66:
 			op.Kind = "alien"
